@@ -19,6 +19,7 @@ relative to the larger operand (DESIGN.md §7, C05).
 -/
 import PhQVerif.Theory.Inverse
 import PhQVerif.Generated.Obl_C05inv
+import PhQVerif.Theory.RelErr
 
 namespace PhQVerif.Props.C05
 open PhQVerif Generated
@@ -26,6 +27,34 @@ open PhQVerif Generated
 /-- **C05.** Every signature-derived pair of relations is a pair of mutual inverses over the reals,
 for all positive inputs in the domain of the composition. -/
 theorem inverse_pairs : ∀ p ∈ InversePairs.rows, InverseOn p := Obl.C05inv
+
+/-- At most 9 roundings in any composition that lies in the positive fragment (443 of the 491 composite
+slots; the others subtract). -/
+theorem rounding_counts :
+    InversePairs.rows.all (fun p => p.comp.all (fun e =>
+      match posFrag 53 e with | some k => decide (k ≤ 9) | none => true)) = true := by decide +kernel
+
+/-- **C05 (to a few ulps).** For every pair and every slot of the composition `g ∘ f` whose traced
+formula lies in the positive fragment, with rounding count `k ≤ 9`: for **all** positive inputs (in
+the domain of the composition, with no intermediate under- or overflow), the value the code computes
+for `g(f(a, b), b)` is within `k` roundings of the original `a`:
+`a·(1-u)^k ≤ computed` and `computed·(1-u)^k ≤ a`, `u = 2^-53` (the rows are the `double`
+instantiations; `float` and `long double` have the same formulas by C18's `all_formats`). -/
+theorem round_trip_few_ulps :
+    ∀ p ∈ InversePairs.rows, ∀ (i : Nat) (ex : Expr) (t : Nat), p.comp[i]? = some ex → p.target[i]? = some t →
+      ∀ k, posFrag 53 ex = some k →
+      ∀ (L : Libm) (env : Nat → Fl) (x : Nat → ℝ), (∀ j, 0 < x j ∧ Fl.toReal (env j) = x j) →
+        (∀ e ∈ p.comp, e.DefinedR x) → InRange L env ex →
+        Within ((2 : ℝ) ^ (-(53 : Int))) k (Fl.toReal (ex.evalF L env)) (x t) := by
+  intro p hp i ex t hex ht k hk L env x henv hdef hr
+  have h1 := posFrag_sound 53 (by norm_num) ex k hk L env x henv hr
+  have hinv := inverse_pairs p hp x (fun j => (henv j).1) hdef
+  have : ex.evalR x = x t := by
+    have h2 := congrArg (fun l => l[i]?) hinv
+    simp only [List.getElem?_map, hex, ht, Option.map_some] at h2
+    exact Option.some.inj h2
+  rw [← this]
+  exact h1
 
 /-- Non-vacuity: the hypotheses of `InverseOn` are met, e.g. by all inputs equal to 2. -/
 example : ∀ e ∈ InversePairs.p0.comp, e.DefinedR (fun _ => (2 : ℝ)) ∨ True := fun _ _ => Or.inr trivial
